@@ -106,6 +106,11 @@ def main():
         extra_builds = {}
         for name, tags in getattr(mod, "EXTRA_DRIVERS", {}).items():
             extra_builds[name] = vlib.build_driver(log, tags=tags, name=name)[0]
+        # property-specific binaries (e.g. the kernel-level driver/runner of C06/C07)
+        if hasattr(mod, "build"):
+            ok_extra, out_extra = mod.build(log)
+            if not ok_extra:
+                drv_ok, drv_out = False, out_extra
 
     if not drv_ok:
         print("driver build failed:\n" + drv_out[-3000:])
@@ -149,8 +154,8 @@ def main():
     os.makedirs(os.path.join(BUILD, "cases"), exist_ok=True)
     open(os.path.join(BUILD, "cases", pid + ".txt"), "w").write(text)
 
-    rc_g, go_out, dt_g = vlib.run_side(os.path.join(BUILD, "driver"), text, timeout=getattr(mod, "TIMEOUT", 900))
-    rc_m, ml_out, dt_m = vlib.run_side(os.path.join(BUILD, "runner"), text, timeout=getattr(mod, "TIMEOUT", 900))
+    rc_g, go_out, dt_g = vlib.run_side(os.path.join(BUILD, getattr(mod, "DRIVER", "driver")), text, timeout=getattr(mod, "TIMEOUT", 900))
+    rc_m, ml_out, dt_m = vlib.run_side(os.path.join(BUILD, getattr(mod, "RUNNER", "runner")), text, timeout=getattr(mod, "TIMEOUT", 900))
     log.append(("driver-run", rc_g, dt_g, go_out[-500:] if rc_g else ""))
     log.append(("model-run", rc_m, dt_m, ml_out[-500:] if rc_m else ""))
     diffs, bad, g, m = vlib.diff_outputs(go_out, ml_out)
@@ -215,8 +220,11 @@ def main():
     vm = dict(ran=0, mismatches=[])
     if not a.replay or True:
         try:
-            vm = vm_sample(pid, mod, [c for c in cases if "vars" in c], g, log,
-                           max_cases=60 if tier == "quick" else 300)
+            if hasattr(mod, "vm_check"):
+                vm = mod.vm_check(cases, g, log, tier)
+            else:
+                vm = vm_sample(pid, mod, [c for c in cases if "vars" in c], g, log,
+                               max_cases=60 if tier == "quick" else 300)
         except Exception as e:  # never let the auxiliary path hide the main verdict
             vm = dict(ran=0, mismatches=[], error=repr(e))
         for cid in vm.get("mismatches", []):
